@@ -80,7 +80,7 @@ class C17(Check):
                         "single-CPU run of the same ext2fs_read_bitmaps call"]
 
     def budget(self, tier):
-        return {"runs": 6000, "wall_s": 85} if tier == "quick" else {"runs": 40000, "wall_s": 1500}
+        return {"runs": 6000, "wall_s": 85} if tier == "quick" else {"runs": 100000, "wall_s": 1500}
 
     def generate(self, rng, tier):
         if rng.chance(0.22):
